@@ -144,6 +144,35 @@ def run_cli(res, ast):
                 if pm.match_stmts(i["then"]["stmts"], N["next_is_limit"] + " = false; if let Ok(__v_l) = __v_a.parse::<usize>() { " + N["limit"] + " = Some(__v_l); } else { __rest; }"):
                     lim_ok = True
         res.check(lim_ok, "CLI-FLAGS", f"{HPBF}|main|limit-operand", w0, "the argument after --limit must be parsed as usize into `limit = Some(..)` and the pending flag cleared")
+    # ------------------------------------------------------------------ help text vs arms (the usage text is the oracle)
+    try:
+        import re as _re
+        ht = ast.fn(HPBF, "print_help_text")["node"]
+        documented = set()
+        for mc in walk_t(ht["body"], "Macro"):
+            if mc["name"] != "println" or not mc.get("args"):
+                continue
+            a0 = mc["args"][0]
+            if a0.get("t") == "Lit" and a0.get("kind") == "str":
+                line_ = a0["value"]
+                m_ = _re.match(r"\s{2,}(-[^\s]+)", line_)
+                if not m_:
+                    continue
+                for tok in m_.group(1).split(","):
+                    mm = _re.match(r"(-\w)\{\{?([\d|]+)\}?\}", tok)
+                    if mm:
+                        for d_ in mm.group(2).split("|"):
+                            documented.add(mm.group(1) + d_)
+                    else:
+                        documented.add(tok)
+        handled = set(seen) if fm and len(fm) == 1 else set()
+        aliases = {"-help", "-file"}
+        res.check(documented and documented <= handled, "CLI-FLAGS", f"{HPBF}|help-vs-arms|documented", where(HPBF, ht, "print_help_text"),
+                  f"flags in the help text without an arm: {sorted(documented - handled)}")
+        res.check(handled - aliases <= documented, "CLI-FLAGS", f"{HPBF}|help-vs-arms|handled", where(HPBF, ht, "print_help_text"),
+                  f"flags with an arm that the help text does not document: {sorted(handled - aliases - documented)}")
+    except Missing as m:
+        res.missing("CLI-FLAGS", m)
     # ------------------------------------------------------------------ defaults
     lets = {}
     for s in mb["stmts"]:
